@@ -2,12 +2,37 @@
 From Coq.Strings Require Import Byte String.
 From Coq Require Import List Arith NArith Bool.
 Import ListNotations.
-From V Require Import lib.Bytes lib.Sexp model.Ast model.Gen model.SourceMap spec.SmSpec.
+From V Require Import lib.Bytes lib.Sexp model.Ast model.Gen model.SourceMap spec.SmSpec model.ProxyCache.
 Require Extraction.
 Require Import ExtrOcamlBasic.
 
 Definition isf (f : bytes) (s : string) : bool := bytes_eqb f (bs s).
 Definition arg (n : nat) (a : list bytes) : bytes := nth n a [].
+
+(* "proxy": four arguments per notification: didOpen|didChange|didClose, uri, text (didOpen: the opened text; didChange:
+   the held text after Document.Apply), AST wire of that text (empty = parseTemplate / Generate rejects it).
+   reply: three fields per notification for the touched uri: held text, cached tables (dumped), Go text at gopls; each
+   "-" when absent, else "+" followed by the value. *)
+Fixpoint proxy_events (a : list bytes) : list pev * list (bytes * file) :=
+  match a with
+  | op :: u :: t :: enc :: r =>
+      let '(evs, tbl) := proxy_events r in
+      let tbl' := match enc with
+                  | [] => tbl
+                  | _ => match parse_all enc with
+                         | Some x => match dfile x with Some fl => (t, fl) :: tbl | None => tbl end
+                         | None => tbl end
+                  end in
+      ((if isf op "didOpen" then Open u t else if isf op "didClose" then Close u else Change u t) :: evs, tbl')
+  | _ => ([], [])
+  end.
+Definition show_opt (o : option bytes) : bytes := match o with Some v => x2b :: v | None => [x2d] end.
+Definition show_tables (m : smap * smap) : bytes :=
+  flat_map (show_entry "S") (fst m) ++ flat_map (show_entry "T") (snd m).
+Definition proxy_reply (a : list bytes) : list bytes :=
+  let '(evs, tbl) := proxy_events a in
+  flat_map (fun o => let '(h, c, g) := o in [show_opt h; show_opt (option_map show_tables c); show_opt g])
+           (trace (fun t => lookup t tbl) pinit evs).
 
 Definition dispatch (f : bytes) (a : list bytes) : list bytes :=
   if isf f "gen" then
@@ -27,6 +52,7 @@ Definition dispatch (f : bytes) (a : list bytes) : list bytes :=
                              [bs "ok"; show_nat (fst r); snd r]
                 | None => [bs "decode-ast"] end
     | None => [bs "decode-sexp"] end
+  else if isf f "proxy" then proxy_reply a
   else [bs "?"].
 
 Extraction "model.ml" dispatch.
